@@ -52,6 +52,24 @@ def run(prop, tier):
         clauses = sorted(f["clauses"])
         sig = "%s %s [src=%s D=%s L=%s]" % (prop, "+".join(clauses), o["src"], o["cfg"]["D"], o["cfg"]["L"])
         rep.violation(sig, {"failing_clauses": clauses, "observed_history": o, "seed": seed})
+    # "for each client key" at the listener: connections through one balancer peer are limited by their announced source address, each
+    # address has its own budget (Admission.tla histories against the real Listener, judged by Trace_Listener)
+    import listener_check
+    lscs, lnotes = listener_check.scenarios("C15", tier, seed, wd)
+    lscs = [x for x in lscs if x["cfg"]["limit"] > 0][: (6 if tier == "quick" else 40)]
+    linp, loutp = os.path.join(wd, "listener_in.ndjson"), os.path.join(wd, "listener_obs.ndjson")
+    vlib.write_ndjson(linp, lscs)
+    vlib.run_bin(hx, ["listener", "--in", linp, "--out", loutp, "--parallel", "8"], timeout=1800)
+    lobs = vlib.read_ndjson(loutp)
+    lt = vlib.run_tlc("Trace_Listener", "Trace_Listener.cfg", wd, workers=1, timeout=600, markers=("FAIL", "NOTCONSUMED"),
+                      env_extra={"TRACE": loutp, "PROP": "C15"}, java_opts=["-Xss1g", "-Dtlc2.tool.queue.IStateQueue=StateDeque"])
+    if not lt.ok or lt.marked["NOTCONSUMED"] or lt.distinct != len(lobs) + 1:
+        raise vlib.ToolError("Trace_Listener did not consume all %d records:\n%s" % (len(lobs), lt.output[-2000:]))
+    for f in lt.marked["FAIL"]:
+        if "C15_ServedIffAdmitted" in f["clauses"]:
+            sc = lscs[f["line"] - 1]
+            rep.violation("C13 C13_KeyedByEffectiveAddress [%s]" % listener_check.describe(sc, lobs[f["line"] - 1]), {"failing_clauses": sorted(f["clauses"]), "scenario": sc, "observed": lobs[f["line"] - 1], "seed": seed})
+    notes.append("listener stage: %d arrival histories with a limiter judged by Trace_Listener" % len(lobs))
     events = sum(len(o["h"]) for o in observed)
     drift = len(tr.marked["DRIFT"])
     walk_mismatch = sum(1 for o in observed if o["src"] == "walk" and any(e["ok"] != e["walkOk"] for e in o["h"]))
